@@ -280,6 +280,12 @@ def one_queue(run, f, sp, lc, rule="O2.1"):
                     n += 1
                     op = st["rv"]["ops"][midx]
                     t = strip_wrappers(t2.norm(t2.operand(op)))
+                    t2_, bd_ = t2, bd
+                    if t[0] in ("upvar", "field"):
+                        # built inside a closure (`.map(|ts| ActorRef { sender, .. })`): the captured value in the enclosing body
+                        bd_, t = sp.lift(bd, t)
+                        t = strip_wrappers(t)
+                        t2 = tracer_of(bd_)
                     origin = None
                     if t[0] == "param":
                         origin = "parameter"
@@ -292,11 +298,12 @@ def one_queue(run, f, sp, lc, rule="O2.1"):
                     if t == ("field", 0, chan_term) and bd.name == b.name:
                         origin = "the Sender half of the mailbox channel (spawn)"
                         fresh.append(f.span(st["span"]).loc)
-                    tt = norm_try(t2, t2.operand(op))
+                    tt = norm_try(t2, t2.operand(op)) if bd_ is bd else norm_try(t2, t)
                     if origin is None and tt[0] == "try_ok":
                         c = strip_wrappers(tt[1])
                         if c[0] == "call" and "WeakSender" in c[2] and c[2].endswith("upgrade"):
                             origin = "upgrade of the weak sender"
+                    t2 = t2_
                     run.require(origin is not None, rule, "actorref-sender-origin:%s" % short_fn(bd.root or bd.defn), "ActorRef built in %s with sender %s" % (bd.name, show(t)),
                                 "sender: %s" % origin, loc=f.span(st["span"]).loc)
     run.require(n >= 3, rule, "actorref-construction-floor", "only %d ActorRef constructions found" % n, "%d ActorRef construction sites (spawn, clone, upgrade)" % n)
